@@ -60,7 +60,7 @@ CSRMatrix* read_mm(const char *fname)
     }
  
     /* reseve memory for matrices */
-    COOMatrix* A = new COOMatrix(M, N, nz);
+    COOMatrix* A = new COOMatrix(M, N, M > 0 ? nz / M + 1 : 1); // third argument: entries per row
 
     /* NOTE: when reading in doubles, ANSI C requires the use of the "l"  */
     /*   specifier as in "%lg", "%lf", "%le", otherwise errors will occur */
